@@ -534,10 +534,29 @@ def _bundle_ref(self: Union[BundleRef, BundleInstance], key: str) -> BundleRef:
     if key in bundle_refs:
         return bundle_refs[key]
 
-    # New reference; create, add, and return it
+    # New reference. References to Signals have no members to refer to.
+    # Note this is what makes e.g. `hasattr(bundle_inst.sig, "width")` false, rather than creating a reference to a "width".
+    referent = _referent(self)
+    if isinstance(referent, Signal):
+        raise AttributeError(f"{self} refers to a Signal, which has no member `{key}`")
+
+    # Create, add, and return it
     bundle_ref = BundleRef(parent=self, attrname=key)
     bundle_refs[key] = bundle_ref
     return bundle_ref
+
+
+def _referent(
+    ref: Union[BundleRef, BundleInstance]
+) -> Union[BundleInstance, Signal, None]:
+    """The member of the bundle definitions which `ref` denotes: a (sub-)BundleInstance or a Signal.
+    Returns `None` if that cannot be determined (yet)."""
+    if isinstance(ref, BundleInstance):
+        return ref
+    parent = _referent(ref.__getattribute__("parent"))
+    if not isinstance(parent, BundleInstance):
+        return None
+    return parent.of.get(ref.__getattribute__("attrname"))
 
 
 def flippable(b: Bundle) -> bool:
